@@ -852,3 +852,34 @@ Proof.
     assert (Hb : In (nth j prof []) prof) by (apply nth_In; exact Hj).
     destruct (strict_complete_pair _ _ _ _ Hs Ha Hb). apply kt_spec; assumption.
 Qed.
+
+(* ------------------------------------------------------------------------------------------ *)
+(** * A boolean check of the hypotheses, used by the non-vacuity examples *)
+
+Fixpoint nodupb (l : list N) : bool :=
+  match l with
+  | [] => true
+  | x :: xs => negb (existsb (N.eqb x) xs) && nodupb xs
+  end.
+
+Lemma nodupb_sound l : nodupb l = true -> NoDup l.
+Proof.
+  induction l as [|x xs IH]; intros H; [constructor|].
+  cbn [nodupb] in H. apply andb_true_iff in H. destruct H as [H1 H2].
+  constructor; [|apply IH; exact H2].
+  intros Hin. apply negb_true_iff in H1.
+  assert (E : existsb (N.eqb x) xs = true)
+    by (apply existsb_exists; exists x; split; [exact Hin|apply N.eqb_refl]).
+  congruence.
+Qed.
+
+Definition rankings_ok (o1 o2 : list N) : bool :=
+  nodupb o1 && (length o2 <=? length o1) && all_in o1 o2.
+
+Lemma rankings_ok_sound o1 o2 : rankings_ok o1 o2 = true -> NoDup o1 /\ Permutation o1 o2.
+Proof.
+  unfold rankings_ok. intros H. apply andb_true_iff in H. destruct H as [H H3].
+  apply andb_true_iff in H. destruct H as [H1 H2].
+  apply nodupb_sound in H1. split; [exact H1|].
+  apply NoDup_Permutation_bis; [exact H1|apply Nat.leb_le; exact H2|apply all_in_iff; exact H3].
+Qed.
